@@ -56,10 +56,10 @@ func runRoutesConcurrent(t *testing.T, id string) {
 		w.httpCall("GET", "/v2/_info", nil) // the one router of the deployment, built before the requests start
 		type req struct {
 			kind, ledger, tag string
-			code             int
-			body             string
-			txID             uint64
-			listed           []map[string]any
+			code              int
+			body              string
+			txID              uint64
+			listed            []map[string]any
 		}
 		nr := rapid.IntRange(2, 6).Draw(rt, "requests")
 		reqs := make([]*req, nr)
